@@ -769,11 +769,13 @@ class AggregateAssignmentMatrixGenerator:
             if override_map is None or len(override_map) == 0:
                 return np.zeros((len(nodes), 0), dtype=np.int8)
 
-            n_override_max = max(max([max(n_conns) for n_conns in override_map.values()]), node_settings.shape[1]-2)
+            # An override can be empty (no nr of connections is possible for this node): no matrix is valid then
+            n_override_max = max(max([max(n_conns, default=0) for n_conns in override_map.values()]),
+                                 node_settings.shape[1]-2)
             override_settings = np.zeros((len(nodes), n_override_max+1), dtype=np.int8)
             for i in range(len(nodes)):
                 if i in override_map:
-                    override_settings[i, np.array(override_map[i])] = 1
+                    override_settings[i, np.array(override_map[i], dtype=int)] = 1
                 else:
                     override_settings[i, :] = -1
             return override_settings
